@@ -256,6 +256,24 @@ def check_c20(root, pid, tier, seed, replay):
         res.cov['size_of_checks'] = 'const assertions of src/lib.rs:39-44 and src/repr.rs:35-40 hold in every configuration that built'
     return lsv.emit(root, res, st)
 
+# ------------------------------------------------------------------------------------------------ C11 / C02
+def check_with_leanitems(root, pid, tier, seed, replay):
+    """the generic check plus a direct sweep of Extend<LeanString> / FromIterator<LeanString> with items that own heap buffers
+    (the runner's LeanString items own none, so that they add no allocator traffic to a step)"""
+    res, st = lsv.decide(root, pid, tier, seed, replay)
+    if not replay and st['harness']['ok']:
+        n, mm, lines, out = run_sweep(root, ['leanitems'], 600)
+        res.cov['lean_item_sweep'] = {'checked': n, 'mismatches': mm}
+        res.stats['steps'] += n
+        mine = [l for l in lines if ('within-capacity' in l) == (pid == 'C11') or 'text' in l or 'collect' in l]
+        if mm != 0 and (mine or not lines):
+            res.stats['monitor_failures'] += 1
+            rp = lsv.write_replay(root, pid, 'leanitems', '# sweep leanitems: Extend<LeanString> with heap-backed items\n%s\n' % '\n'.join((mine or [out[-300:]])[:5]))
+            res.violations.append(('sweep leanitems: %s' % ((mine[0] if mine else out[-200:])[:220]), rp, bool(mine), 'lean_items'))
+    return lsv.emit(root, res, st)
+SPECIAL['C11'] = check_with_leanitems
+SPECIAL['C02'] = check_with_leanitems
+
 SPECIAL['C15'] = check_c15
 SPECIAL['C20'] = check_c20
 
